@@ -59,6 +59,10 @@ def _build():
     _add('poison[unnest]', Q(items=[NR, Item('UNNEST([a2, 10 // a1])', lambda e: [e.a(2), 10 // e.a(1)], kind='unnest')]), A3, quick=True)
     _add('poison[unnest-arg-not-list]', Q(items=[Item('UNNEST(list(range(a2)))', lambda e: list(range(e.a(2))), kind='unnest'), DIV]), ['ik', 'ik'], krange=3)
     _add('poison[except]', Q(excpt=[1], excpt_text='a2', where=('10 // a1 != 3', lambda e: 10 // e.a(1) != 3)), A3)
+    # numeric conversion failures of the aggregates are reported at the offending record ('p' cells: '7' or the non-numeric 'x', chosen by symbolic bools)
+    for ag in ('MIN', 'MAX', 'SUM', 'AVG', 'VARIANCE', 'MEDIAN'):
+        _add('poison[convert-%s]' % ag, Q(items=[agg(ag, 'a2', lambda e: e.a(2))]), ['ip', 'ip', 'ip'], quick=True)
+        _add('poison[convert-%s,grp]' % ag, Q(items=[fa(1), agg(ag, 'a2', lambda e: e.a(2), ag.lower())], group=[('a1', lambda e: e.a(1))]), ['kp', 'kp', 'kp'], krange=2)
     jj = join('JOIN')
     _add('poison[join-select]', Q(items=[fa(1), Item('10 // b2', lambda e: 10 // e.b(2))], join=jj), ['ki', 'ki'], ['ki', 'ki'], quick=True, krange=2)
     _add('poison[join-where]', Q(items=[fb(2), NR], join=join('LEFT JOIN'), where=('10 // a2 > 0', lambda e: 10 // e.a(2) > 0)), ['ki', 'ki', 'ki'], ['ki'], krange=2)
